@@ -54,6 +54,8 @@ pub mod patterns;
 pub mod state_machines;
 pub mod functions;
 pub mod repl;
+#[cfg(mech_verif)]
+pub mod verif;
 
 pub use crate::parser::*;
 //#[cfg(feature = "mechdown")]
@@ -178,6 +180,7 @@ impl<'a> ParseString<'a> {
 
   /// If current location matches the tag, consume the matched string.
   fn consume_tag(&mut self, tag: &str) -> Option<String> {
+    #[cfg(mech_verif)] crate::verif::step();
     if self.is_empty() {
       return None;
     }
@@ -223,6 +226,7 @@ impl<'a> ParseString<'a> {
 
   /// Mutate self by consuming one grapheme
   fn consume_one(&mut self) -> Option<String> {
+    #[cfg(mech_verif)] crate::verif::step();
     if self.is_empty() {
       return None;
     }
@@ -242,6 +246,7 @@ impl<'a> ParseString<'a> {
 
   /// If current location matches any emoji, consume the matched string.
   fn consume_emoji(&mut self) -> Option<String> {
+    #[cfg(mech_verif)] crate::verif::step();
     if self.is_empty() {
       return None;
     }
@@ -258,6 +263,7 @@ impl<'a> ParseString<'a> {
 
   /// If current location matches any alpha char, consume the matched string.
   fn consume_alpha(&mut self) -> Option<String> {
+    #[cfg(mech_verif)] crate::verif::step();
     if self.is_empty() {
       return None;
     }
@@ -273,6 +279,7 @@ impl<'a> ParseString<'a> {
 
   /// If current location matches any digit, consume the matched string.
   fn consume_digit(&mut self) -> Option<String> {
+    #[cfg(mech_verif)] crate::verif::step();
     if self.is_empty() {
       return None;
     }
